@@ -221,7 +221,7 @@ def monitor_psi(ctx, w, case, psi, fu, a_ids, b_ids):
 
 def run_case(ctx, case, workdir, lines, impl, cases, canon):
     from allmydata.mutable.publish import Publish
-    from allmydata.interfaces import NotEnoughServersError
+    from allmydata.mutable.common import NotEnoughServersError
     w = World(case, workdir)
     A, B = w.broker(case["orders"][0]), w.broker(case["orders"][1])
     nconn = sum(1 for s in case["servers"] if s["connected"])
